@@ -42,6 +42,7 @@ pub fn model_space(tier: Tier) -> Vec<Model> {
             v.extend(gen::m3(0));
             v.extend(gen::m4(0));
             v.extend(gen::m5(0));
+            v.extend(gen::m6(0));
         }
         Tier::Thorough => {
             v.extend(gen::m1(1));
@@ -49,6 +50,7 @@ pub fn model_space(tier: Tier) -> Vec<Model> {
             v.extend(gen::m3(1).into_iter().step_by(2));
             v.extend(gen::m4(1));
             v.extend(gen::m5(1));
+            v.extend(gen::m6(1));
         }
     }
     v
